@@ -53,9 +53,47 @@ class Ctx(object):
         self.supported_ts = ts
 
 
-def feed_and_check(v, frags, groups, cmd_bytes, data_bytes, pc_id, cls_name, mode, ts, meta, trace=None):
+class ProviderSink(object):
+    """The receiving side of ONE association: P-DATA-TF PDUs go through the provider's real DT-2 action (which owns the
+    life of the DIMSEDecoder), message after message.  Same interface as a DIMSEDecoder for feed_and_check."""
+
+    def __init__(self, contexts, store):
+        from . import simnet
+        self.ae = D.applicationentity.ClientAE('VERIF')
+        self.opened = []
+        self.sock = simnet.FakeSocket()
+        self.prov = simnet.Stepped(dul_socket=self.sock, store_in_file=frozenset(store), get_file_cb=self.get_file)
+        self.sm = self.prov.state_machine
+        self.sm.accepted_contexts = contexts
+        self.receiving = True
+        self.msg = None
+        self.pc_id = None
+
+    def get_file(self, ctx, command_set):
+        fp, start = self.ae.get_file(ctx, command_set)
+        self.opened.append(fp)
+        return fp, start
+
+    def process(self, p):
+        self.sm.current_state = D.fsm.States.STA_6
+        self.prov.primitive = p
+        ns = self.sm.dt_2()
+        if ns != D.fsm.States.STA_6:
+            raise RuntimeError('DT-2 treated the PDU as invalid (next state Sta%d, wrote %r)' % (ns + 1, self.sock.sent[-1:]))
+        got = self.prov.drain_user()
+        if got:
+            if len(got) != 1 or not isinstance(got[0], tuple):
+                raise RuntimeError('DT-2 indicated %r' % (got,))
+            self.msg, self.pc_id = got[0]
+            self.receiving = False
+        else:
+            self.receiving = True
+
+
+def feed_and_check(v, frags, groups, cmd_bytes, data_bytes, pc_id, cls_name, mode, ts, meta, trace=None, sink=None):
     """frags: list of (is_cmd, last, payload); groups: list of (k, expected_receiving or None).
-    mode: 'mem' | 'file' | 'dir'.  Returns list of Feed events (for code->spec validation)."""
+    mode: 'mem' | 'file' | 'dir'.  Returns list of Feed events (for code->spec validation).
+    sink: a ProviderSink shared by the messages of one association (default: a fresh DIMSEDecoder)."""
     sop = None
     for t, val in cmdset.read(cmd_bytes):
         if t in (cmdset.TAG_AFF_SOP_CLASS, cmdset.TAG_REQ_SOP_CLASS):
@@ -68,7 +106,12 @@ def feed_and_check(v, frags, groups, cmd_bytes, data_bytes, pc_id, cls_name, mod
         fp, start = ae.get_file(ctx, command_set)
         opened.append(fp)
         return fp, start
-    dec = D.fsm.DIMSEDecoder({pc_id: Ctx(pc_id, sop, ts)}, store, get_file)
+    if sink is not None:
+        dec = sink
+        opened = sink.opened
+        dec.receiving = True
+    else:
+        dec = D.fsm.DIMSEDecoder({pc_id: Ctx(pc_id, sop, ts)}, store, get_file)
     events = []
     i = 0
     where = 'message %r' % (meta,)
@@ -134,9 +177,10 @@ def feed_and_check(v, frags, groups, cmd_bytes, data_bytes, pc_id, cls_name, mod
         problems.append('a data set was delivered although none was sent')
     for fp in opened:
         try:
-            fp.close()
+            fp.close()          # as the storage service does once it has handled the message
         except Exception:   # noqa
             pass
+    del opened[:]
     for pr in problems:
         v.report({'site': 'fsm.DIMSEDecoder', 'clause': 'content', 'what': pr.split(' ')[0], 'mode': mode},
                  '%s; grouping %s; %s' % (pr, [g[0] for g in groups], where), replay=meta)
@@ -184,6 +228,55 @@ def main(tier='quick'):
             n_replayed += 1
             if len(samples) < 3 and len(groups) > 2:
                 samples.append(meta)
+    # ---- sessions: several messages of one association through the provider's real DT-2 action; the same storage
+    # SOP class accepted on two contexts with different transfer syntaxes, a non-storage class in memory
+    n_sessions = 0
+    STORE_SOP, MEM_SOP = '1.2.840.10008.5.1.4.1.1.7', '1.2.840.10008.5.1.4.1.2.2.1'
+    for si in range(120 if tier == 'quick' else 1500):
+        tsa, tsb = rng.sample(TS, 2)
+        ctxs = {1: Ctx(1, STORE_SOP, tsa), 3: Ctx(3, STORE_SOP, tsb), 5: Ctx(5, MEM_SOP, rng.choice(TS)), 7: Ctx(7, '1.2.840.10008.1.1', TS[0])}
+        sink = ProviderSink(ctxs, [STORE_SOP])
+        n_sessions += 1
+        for mi in range(rng.choice([2, 3, 4])):
+            beh = behaviours[rng.randrange(len(behaviours))]
+            frs = beh['frags']
+            nc = [f['n'] for f in frs if f['cmd']]
+            nd = [f['n'] for f in frs if not f['cmd']]
+            kind = rng.choice(['store', 'store', 'find', 'echo']) if nd else 'echo'
+            if kind == 'store':
+                pcid = rng.choice([1, 3])
+                msg = D.fill(D.dm.CStoreRQMessage(), rng)
+                msg.sop_class_uid = STORE_SOP
+                cls_name, mode = 'CStoreRQMessage', 'file'
+            elif kind == 'find':
+                pcid = 5
+                msg = D.fill(D.dm.CFindRQMessage(), rng)
+                msg.sop_class_uid = MEM_SOP
+                cls_name, mode = 'CFindRQMessage', 'mem'
+            else:
+                pcid = 7
+                msg = D.fill(D.dm.CEchoRQMessage(), rng)
+                msg.sop_class_uid = '1.2.840.10008.1.1'
+                cls_name, mode = 'CEchoRQMessage', 'mem'
+                nd = []
+            ts = ctxs[pcid].supported_ts
+            data = D.dataset_bytes(rng, rng.choice([40, 90, 300]), ts)[0] if nd else b''
+            if nd:
+                msg.data_set = data
+            msg.set_length()
+            cmd = cmdset.encode_dataset(msg.command_set)
+            frags = [(True, i == len(nc) - 1, pl) for i, pl in enumerate(split_to(cmd, nc))] + \
+                    [(False, i == len(nd) - 1, pl) for i, pl in enumerate(split_to(data, nd))]
+            if nd:
+                groups = [(g['k'], g['receiving']) for g in beh['groups']]
+            else:       # the behaviour's data fragments are not sent: regroup the command fragments one per PDU
+                groups = [(1, i < len(nc) - 1) for i in range(len(nc))]
+            meta = {'kind': 'session', 'session': si, 'message': mi, 'class': cls_name, 'mode': mode, 'ctx': pcid, 'ts': str(ts),
+                    'contexts': {str(k): [c.sop_class, str(c.supported_ts)] for k, c in ctxs.items()},
+                    'cmd_frags': nc, 'data_frags': nd, 'grouping': [g[0] for g in groups]}
+            if feed_and_check(v, frags, groups, cmd, data, pcid, cls_name, mode, ts, meta, sink=sink) is None:
+                break
+            n_replayed += 1
     # ---- code -> spec: the library's own fragments, regrouped
     traces, metas = [], []
     n_rand = 600 if tier == 'quick' else 8000
@@ -233,7 +326,7 @@ def main(tier='quick'):
           'coverage': {'states': mc.distinct, 'transitions': mc.generated,
                        'traces_validated_against_impl': len(traces) + n_replayed,
                        'tlc_behaviours': len(behaviours), 'tlc_behaviours_replayed_into_decoder': n_replayed,
-                       'library_fragment_traces_validated': len(traces),
+                       'library_fragment_traces_validated': len(traces), 'sessions_through_the_providers_dt2': n_sessions,
                        'samples': samples + [{'trace': traces[0][-6:], 'meta': metas[0]}] if traces else samples,
                        'exhaustive': False},
           'assumptions': ['abstract fragment sizes of a TLC behaviour are concretised as proportional cuts of real command / data bytes']}
